@@ -457,7 +457,7 @@ func init() {
 			{Name: "two-types-full", KQuick: -1, KThor: -1, Gen: c13Gen(2, false)},
 			{Name: "three-types", KQuick: 3, KThor: 4, Gen: c13Gen(3, true)},
 			{Name: "four-types", KQuick: 2, KThor: 3, Gen: c13Gen(4, true)},
-			{Name: "through-coca-arch", KQuick: 1, KThor: 2, Gen: cliArchGen},
+			{Name: "through-coca-arch", KQuick: 2, KThor: 3, Gen: cliArchGen},
 		},
 	})
 }
